@@ -234,7 +234,7 @@ def random_script(rng, a, b, p_eq=0.8):
 
 
 # ---------- alternating op lists for grouping ----------
-def alternating_lists(n, max_runs, kinds=("D", "I", "R")):
+def alternating_lists(n, max_runs, kinds=("D", "I", "R"), start=(0, 0)):
     """all alternating op lists with <= max_runs runs, run lengths around the
     boundaries of radius n, change kinds cycled"""
     lens = sorted({x for x in (1, n - 1, n, n + 1, 2 * n - 1, 2 * n, 2 * n + 1, 2 * n + 2) if x >= 1})
@@ -246,7 +246,7 @@ def alternating_lists(n, max_runs, kinds=("D", "I", "R")):
             for eqlens in itertools.product(lens, repeat=neq):
                 for chk in itertools.product(kinds, repeat=nch):
                     ops = []
-                    i = j = 0
+                    i, j = start
                     ei = ci = 0
                     for p in pattern:
                         if p:
@@ -271,11 +271,11 @@ def alternating_lists(n, max_runs, kinds=("D", "I", "R")):
                     yield ops
 
 
-def random_alternating(rng, n):
+def random_alternating(rng, n, start=(0, 0)):
     runs = rng.randrange(0, 12)
     start_eq = rng.random() < 0.5
     ops = []
-    i = j = 0
+    i, j = start
     for k in range(runs):
         if (k % 2 == 0) == start_eq:
             l = rng.choice([1, 2, max(1, n), n + 1, 2 * n, 2 * n + 1, 2 * n + 2, 3 * n + 5, rng.randrange(1, 30)])
